@@ -234,6 +234,12 @@ def finish(prop, tier, seed, mod, results, t0, tree_hash, no_replay=False, extra
             nonrepro.append((sig, path, detail))
     need = getattr(mod, 'REQUIRED_WITNESSES', [])
     missing = [wn for wn in need if witnesses.get(wn, 0) == 0]
+    if not mismatches:
+        # a mismatch file left by an earlier run says nothing about this one
+        try:
+            os.remove(os.path.join(VERIF, 'replays', prop, 'encoder-mismatch.json'))
+        except OSError:
+            pass
     for sig, path, kf in known_hits:
         print('KNOWN-FINDING: property=%s %s' % (prop, kf.get('what', sig)))
     rc = 0
